@@ -239,6 +239,9 @@ bool FIXReader::read(f8String& to)	// read a complete FIX message
 				if (*tag != '9')
 					throw IllegalMessage(to, FILE_LINE);
 
+				const size_t vlen(::strlen(val));
+				if (vlen == 0 || vlen > 9 || !std::all_of(val, val + vlen, [](const char c) { return isdigit(c); })) // not a number we can hold
+					throw InvalidBodyLength(0);
 				const unsigned mlen(fast_atoi<unsigned>(val));
 				if (mlen == 0 || mlen > _max_msg_len - _bg_sz - _chksum_sz) // invalid msglen
 					throw InvalidBodyLength(mlen);
